@@ -180,6 +180,23 @@ func checkC06(c *Ctx) {
 				return
 			}
 			if k, isK := evalConst(st.Val); !isK || k != 0 {
+				// a decoder stores what it read from its input: that is not the construction of a new timestamp
+				fromInput := false
+				for v := range c.sliceOfLocal(st.Val) {
+					if call, isC := v.(*ssa.Call); isC {
+						if _, _, put, isU := uintCallWidth(ir.CallID(call)); isU && !put {
+							fromInput = true
+						}
+					}
+					if ld, isLd := v.(*ssa.UnOp); isLd {
+						if _, isIA := ld.X.(*ssa.IndexAddr); isIA {
+							fromInput = true
+						}
+					}
+				}
+				if fromInput && (c.readCone()[fn] || hasByteSliceParam(fn)) {
+					return
+				}
 				okZ, detZ = false, "field "+strings.TrimPrefix(id, utilP+".")+" is set at "+c.IPos(st)+"; the descriptor timestamp must have pad, nanosecond, timezone and daylight zero"
 			}
 		})
@@ -348,7 +365,20 @@ func (c *Ctx) signEFIVariableRules() {
 		if len(ws) == 0 {
 			c.R.Infof("I3.order", fname, "signed-buffer", c.IPos(sign), "not decided for this shape: the signed buffer is not filled with encoding/binary.Write")
 		} else {
-			if len(ws) != 5 {
+			otherWrites := 0
+			for _, di := range dv.order {
+				if call, isC := di.i.(*ssa.Call); isC {
+					switch ir.CallID(call) {
+					case "bytes.Buffer.Write", "bytes.Buffer.WriteByte", "bytes.Buffer.WriteString", "bytes.Buffer.ReadFrom":
+						if dv.objectOf(call.Call.Args[0], di.fr).same(signedBuf) {
+							otherWrites++
+						}
+					}
+				}
+			}
+			if len(ws) != 5 && otherWrites > 0 {
+				c.R.Infof("I3.order", fname, "signed-buffer", c.IPos(sign), "not decided for this shape: the signed buffer is filled partly with encoding/binary.Write and partly with plain Write calls")
+			} else if len(ws) != 5 {
 				bad = append(bad, fmt.Sprintf("%d values are written to the signed buffer, want name, GUID, attributes, timestamp, payload", len(ws)))
 			} else {
 				for _, w := range ws {
@@ -491,14 +521,14 @@ func (c *Ctx) signEFIVariableRules() {
 	var resBuf dval
 	haveRes := false
 	for _, r := range ir.Returns(fn) {
-		if len(r.Results) == 3 && !ir.IsNilConst(r.Results[1]) {
-			resBuf, haveRes = dv.objectOf(r.Results[1], dv.root), true
+		if len(r.Results) == 3 && !ir.IsNilConst(effectiveResult(fn, r, 1)) {
+			resBuf, haveRes = dv.objectOf(effectiveResult(fn, r, 1), dv.root), true
 			// conversions of a local buffer: efibytes(buf) is a value copy of the buffer
 			if ld, ok := ir.StripConv(resBuf.v).(*ssa.UnOp); ok {
 				resBuf = dv.objectOf(ld.X, resBuf.fr)
 			}
 			if haveAuth {
-				ro := through(ir.StripConv(r.Results[0]), dv.root)
+				ro := through(ir.StripConv(effectiveResult(fn, r, 0)), dv.root)
 				if ir.StripConv(ro.v) != ir.StripConv(authObj.v) {
 					bad = append(bad, "the descriptor returned is not the one whose timestamp was signed")
 				}
@@ -576,4 +606,18 @@ func (c *Ctx) signEFIVariableRules() {
 		}
 	}
 	c.R.Check(len(bad) == 0, "I6.binding", fname, "descriptor+payload", c.Pos(fn.Pos()), "one descriptor object: its timestamp is signed, it is emitted first, followed by the unchanged payload", strings.Join(bad, "; "))
+}
+
+func hasByteSliceParam(fn *ssa.Function) bool {
+	for _, p := range fn.Params {
+		if isByteSlice(p.Type()) {
+			return true
+		}
+		if pp, ok := p.Type().Underlying().(*types.Pointer); ok {
+			if arr, isArr := pp.Elem().Underlying().(*types.Array); isArr && binarySize(arr.Elem()) == 1 {
+				return true
+			}
+		}
+	}
+	return false
 }
